@@ -55,7 +55,15 @@ fn gen_input(r: &mut Rng, i: u64) -> (&'static str, Vec<u8>) {
         _ => {
             // invalid UTF-8 / NUL in key, value, message
             let bad: &[&[u8]] = &[b"\xff", b"\xc3", b"\x00", b"\xed\xa0\x80", b"\xf8\x88\x80\x80\x80", b"\xc0\xaf"];
-            let b = bad[r.below(bad.len())];
+            // ... or a perfectly valid non-ASCII character, which is fine in a value or message but not in a field
+            // name or ACK command name (MPD's names are ASCII): every 2-byte character is equally likely, so
+            // the ones whose bytes look like Latin-1 letters (ê = C3 AA, µ = C2 B5, ...) are met, plus a few others
+            let valid: String = match r.below(4) {
+                0 => char::from_u32(0x80 + r.below(0x780) as u32).unwrap_or('ê').to_string(),
+                1 => r.pick(&["ê", "õ", "ú", "ª", "µ", "º", "é", "\u{aaa}", "с", "ｐ", "\u{205f}", "\u{a0}", "ÿ", "Ā"]).to_string(),
+                _ => String::new(),
+            };
+            let b: &[u8] = if valid.is_empty() { bad[r.below(bad.len())] } else { valid.as_bytes() };
             let mut v = Vec::new();
             match r.below(5) {
                 0 => {
@@ -191,8 +199,11 @@ impl C09 {
                     max_responses: 100_000,
                     keep_alive: false,
                 };
+                // an application that logs an error and simply receives again: two more calls after the terminal item
+                crate::sim::wirerun::AFTER_TERMINAL.with(|v| v.set(2));
                 let out = run(&spec);
                 acc.inc("evaluations");
+                acc.count("receive_calls_after_terminal_item", out.after_terminal.len() as u64);
                 acc.max("reads_per_call", out.stats.max_reads_in_call as u64);
                 let ctx = |what: String| -> (String, J) {
                     (
@@ -208,6 +219,19 @@ impl C09 {
                 };
                 // 1. panics
                 let mut panicked = false;
+                for (k, it) in out.after_terminal.iter().enumerate() {
+                    if let Item::Panic(m) = it {
+                        panicked = true;
+                        if m.contains(BUDGET_MARKER) {
+                            let (s, d) = ctx(format!("receive call #{} after the terminal item keeps reading after end of stream (read budget exceeded)", k + 1));
+                            acc.violation(i, None, s, d);
+                        } else {
+                            let (s, d) = ctx(format!("panic in receive call #{} after the connection had returned {}: {}", k + 1, out.items.last().map(|x| x.kind()).unwrap_or_default(), m));
+                            acc.violation(i, None, s, d);
+                        }
+                        break;
+                    }
+                }
                 for it in &out.items {
                     let inner = match it {
                         Item::ConnectErr(b) => b.as_ref(),
@@ -374,7 +398,7 @@ impl Property for C09 {
     fn meta(&self, _cfg: &Cfg, _acc: &Acc) -> Meta {
         Meta {
             level: "exploration",
-            rule: "inputs: random bytes (0-20 KiB), protocol-dictionary token soups, well-formed streams with 1-8 mutations, numeric edge cases for binary:/ACK numbers (0..2^64, 40 digits, signs, blanks), invalid UTF-8/NUL in key/value/message/command, greeting variants; every 5th input goes through connect as well; each under whole, byte-at-a-time and random segmentation on both connection flavours inside child processes (abort containment); oracles: no panic/abort, no read after a 0-byte read within a call, reads <= bytes+2, every returned field/payload occurs literally in the input, and responses + terminal outcome equal the whole-buffer reference decoder's (so the first complete malformed line yields InvalidMessage); non-trivial = input with >=1 complete line (or a connect input); distinct by input hash".into(),
+            rule: "inputs: random bytes (0-20 KiB), protocol-dictionary token soups, well-formed streams with 1-8 mutations, numeric edge cases for binary:/ACK numbers (0..2^64, 40 digits, signs, blanks), invalid UTF-8/NUL and valid non-ASCII characters (every 2-byte character equally likely) in key/value/message/command, greeting variants; every 5th input goes through connect as well; after the terminal item (error or clean end) receive() is called twice more (an application that logs the error and receives again): those calls must return without panic and without reading past the end; each under whole, byte-at-a-time and random segmentation on both connection flavours inside child processes (abort containment); oracles: no panic/abort, no read after a 0-byte read within a call, reads <= bytes+2, every returned field/payload occurs literally in the input, and responses + terminal outcome equal the whole-buffer reference decoder's (so the first complete malformed line yields InvalidMessage); non-trivial = input with >=1 complete line (or a connect input); distinct by input hash".into(),
             nontrivial_set: "nontrivial",
             assumptions: vec![
                 "reference decoder (harness, plain byte loops, written from the protocol document) is the trusted base".into(),
